@@ -296,7 +296,9 @@ impl Pool {
                 match self.kid.as_ref().unwrap().rx.recv_timeout(Duration::from_millis(100)) {
                     Err(RecvTimeoutError::Timeout) => {
                         let cpu = cpu_ms(pid).saturating_sub(cpu0);
-                        if cpu > self.limit.as_millis() as u64 || t0.elapsed() > self.limit * 12 { break Err(RecvTimeoutError::Timeout); }
+                        // the 40 000-row spill setting does real work (spilled aggregation + external sort on 4 threads): three times the budget
+                        let lim = if setup == "spill" || setup == "nolimit" { self.limit * 3 } else { self.limit };
+                        if cpu > lim.as_millis() as u64 || t0.elapsed() > lim * 12 { break Err(RecvTimeoutError::Timeout); }
                     }
                     other => break other,
                 }
